@@ -46,6 +46,13 @@ func channelMake(L *LState) int {
 	return 1
 }
 
+// reserveRegisters makes sure that n more registers fit above the current top, raising "registry
+// overflow" now if they do not: a receive must not fail for lack of room for its results after it
+// has taken a value out of the channel, the value would be lost.
+func reserveRegisters(L *LState, n int) {
+	L.reg.checkSize(L.reg.Top() + n)
+}
+
 func channelSelect(L *LState) int {
 	top := L.GetTop()
 	if top == 0 {
@@ -54,6 +61,9 @@ func channelSelect(L *LState) int {
 		L.RaiseError("bad argument #1 to select (at least one case expected)")
 	}
 	cases := make([]reflect.SelectCase, top)
+	// room needed once a case has been chosen: the three results, or a handler call (function,
+	// two arguments, the registers of its frame) followed by the results
+	need, handlers := 3, false
 	for i := 0; i < top; i++ {
 		cas := reflect.SelectCase{
 			Dir:  reflect.SelectSend,
@@ -90,6 +100,20 @@ func channelSelect(L *LState) int {
 			L.ArgError(i+1, "invalid channel direction:"+string(dir))
 		}
 		cases[i] = cas
+		if fn, ok := tbl.RawGetInt(tbl.Len()).(*LFunction); ok {
+			handlers = true
+			n := 3 + 3
+			if !fn.IsG {
+				n += int(fn.Proto.NumUsedRegisters)
+			}
+			if n > need {
+				need = n
+			}
+		}
+	}
+	reserveRegisters(L, need)
+	if handlers && L.stack.IsFull() {
+		L.RaiseError("stack overflow")
 	}
 
 	if L.ctx != nil {
@@ -155,6 +179,7 @@ var channelMethods = map[string]LGFunction{
 
 func channelReceive(L *LState) int {
 	rch := checkChannel(L, 1)
+	reserveRegisters(L, 2)
 	var v reflect.Value
 	var ok bool
 	if L.ctx != nil {
